@@ -1,5 +1,9 @@
 package main
 
+import (
+	"verif/harness/internal/chainx"
+)
+
 // corpusCase is a hand-written history (runs before the generated cases).
 type corpusCase struct {
 	name                 string
@@ -90,3 +94,28 @@ var corpus = []corpusCase{
 }
 
 func (c *caseRun) setupGasOnly() *op { return c.setupOps()[0] }
+
+func init() {
+	corpus = append(corpus, corpusCase{
+		// whitelisted fee of a method set twice (0, then 0.05 GAS), restart of B, then the method is invoked
+		name: "whitelist-fee-updated-then-restart", csize: 2, vcount: 1, extra: 2, blocks: 9,
+		gen: func(c *caseRun, h uint32) []*op {
+			w := c.w
+			switch h {
+			case 1:
+				return compact(c.setupGasOnly())
+			case 2:
+				return compact(w.opDeploy(0))
+			case 3:
+				return compact(w.whitelistOp(w.slots[0].hash, "put", 2, 0, false))
+			case 4:
+				return compact(w.whitelistOp(w.slots[0].hash, "put", 2, 500_0000, false))
+			case 6, 7:
+				tx := w.mkTx(chainx.Script(false, chainx.Call{Hash: w.slots[0].hash, Method: "put", Args: []any{[]byte{1}, []byte{2, 3}}, Drop: true}), 0, w.net.Single(2))
+				return compact(&op{kind: "kv.invoke", tx: tx, line: "tx s=k2 c=- kv.invoke " + w.tok(w.slots[0].hash) + " put"})
+			}
+			return nil
+		},
+		restarts: []uint32{5},
+	})
+}
